@@ -145,6 +145,22 @@ theorem sus_loop_safe_under_any_rounding (p : List α) (sigma : List Nat)
     simp [this]
   rwa [this] at hpos
 
+/-- **Why the guard is the NUMBER of positive weights** (`last = numpy.count_nonzero(p) - 1`, hypothesis `hlast` of the
+    theorem above): the guard bounds a position in the *descending sorted* order.  Taking instead the position of the last
+    positive weight in the original order (`numpy.flatnonzero(p)[-1]`) is right only when every zero weight sits at the
+    end of `p`.  For `p = (0, 1, 2)` — a zero in front — that position is 2, and a pointer beyond the end of the computed
+    cumulative weights (every comparison true: what rounding of `p.sum()` against `cumsum()[-1]` produces) walks on to
+    sorted position 2 = element 0, of weight zero; with the guard of the code (1) it stays on element 1. -/
+theorem sus_guard_needs_count_of_positive_weights :
+    let p : List ℚ := [0, 1, 2]
+    let sigma := [2, 1, 0]
+    let cs := Np.cumsum (sigma.map (fun i => p.getD i 0))
+    isPerm sigma p.length = true ∧ nonIncreasing (sigma.map (fun i => p.getD i 0)) = true ∧
+    walkG (fun _ _ => true) (cs.zip sigma) 2 [(4 : ℚ)] = some [0] ∧ p.getD 0 0 = 0 ∧
+    walkG (fun _ _ => true) (cs.zip sigma)
+      ((p.filter (fun x => decide (0 < x) || decide (x < 0))).length - 1) [(4 : ℚ)] = some [1] := by
+  refine ⟨by decide, by decide +kernel, by decide +kernel, by decide +kernel, by decide +kernel⟩
+
 end sus
 
 section floorceil
@@ -648,6 +664,24 @@ theorem outcross_noncontiguous_prerepair_counterexample :
     score (β := Nat) 2 2 (swap [1, 1, 2, 2] 0 2) < score (β := Nat) 2 2 [1, 1, 2, 2] ∧
     (outcross (β := Nat) 2 2 [1, 1, 2, 2] [allPairs 4, allPairs 4, allPairs 4]).toOption = some [2, 1, 1, 2] := by
   refine ⟨by rfl, by decide, by decide⟩
+
+/-- **Why every pass must visit every pair** (`isPairOrder` in `outcross`; hypothesis of `outcross_local_opt`): a
+    candidate list that is built once and leaves out the pairs of positions holding the same individual *at the start*
+    (`[[1,1],[2,2],[2,2],[0,0]]`: 20 of the 28 pairs) is stale after the first accepted exchange.  With the 20 pairs in
+    the order below the descent stops after three passes at `[[1,2],[0,1],[2,2],[2,0]]` (one repeated individual) although
+    exchanging flat positions 2 and 4 — which held the same individual at the start — leaves none.  The model rejects
+    such pair orders (`oracle: every pass …`), so a changed tree that prunes the list shows as a Spec failure on the
+    implementation's table (`specOutcross … .improving ≠ []`), never as an accepted run. -/
+theorem outcross_needs_every_pair_in_every_pass :
+    let x : List Nat := [1, 1, 2, 2, 2, 2, 0, 0]
+    let o : List (Nat × Nat) := [(1, 3), (0, 2), (2, 6), (0, 4), (4, 7), (2, 7), (1, 2), (5, 6), (5, 7), (0, 7), (3, 6),
+      (0, 3), (1, 7), (0, 6), (1, 4), (1, 5), (0, 5), (3, 7), (4, 6), (1, 6)]
+    (∀ q ∈ allPairs 8, (q ∈ o ↔ x[q.1]? ≠ x[q.2]?)) ∧
+    climb (score 4 2) [o, o, o, o, o] x (score 4 2 x) = .ok [1, 2, 0, 1, 2, 2, 2, 0] ∧
+    score 4 2 (swap [1, 2, 0, 1, 2, 2, 2, 0] 2 4) < score (β := Nat) 4 2 [1, 2, 0, 1, 2, 2, 2, 0] ∧
+    (specOutcross 4 2 x [1, 2, 0, 1, 2, 2, 2, 0]).ok = false ∧
+    (outcross 4 2 x [o, o, o, o, o]).toOption = none := by
+  refine ⟨by decide +kernel, by decide +kernel, by decide +kernel, by decide +kernel, by decide +kernel⟩
 
 /-- the model's output satisfies the outcross clause `OutcrossSpec`, i.e. passes the Spec oracle
     `c17.spec_outcross` (multiset, per-cross counts, no improving exchange left, total not increased) -/
